@@ -11,12 +11,14 @@ import DimModel.Lib.Operation
 import DimModel.Lib.Join
 import DimModel.Lib.Transform
 import DimModel.Lib.Missing
+import DimModel.Lib.Stats
 import DimModel.Lib.Dataset
 import DimModel.Lib.Interp
 import DimModel.Lib.OnDisk
 import DimModel.Lib.Heap
 import DimModel.Lib.DatasetOps
 import DimModel.Lib.DatasetInterp
+import DimModel.Lib.InterpLike
 open Lean
 namespace DimModel.Driver
 open DimModel.Codec
@@ -132,6 +134,19 @@ def encSum (r : Except Err (Sum Cell (DimArray Cell))) : Json :=
   | .ok (.inl c) => Json.mkObj [("ok", Json.mkObj [("scalar", encCell c)])]
   | .ok (.inr a) => Json.mkObj [("ok", encDimArray a)]
 
+def ratPair (j : Json) : P Rat := do
+  let a ← arr j
+  match a.toList with
+  | [n, d] => do pure (ratOf (← int n) (← nat d))
+  | _ => throw "bad rational"
+
+/-- the `pct` argument of lib.stats.percentile: {"form": "scalar", "q": [n, d]} | {"form": "many", "qs": [[n, d] ...], "kind": k} -/
+def pctArg (j : Json) : P Lib.PctArg := do
+  match (← str (← fld j "form")) with
+  | "scalar" => do pure (.scalar (← ratPair (← fld j "q")))
+  | "many" => do pure (.many (← listOf ratPair (← fld j "qs")) (← kind (fldD j "kind" (Json.str "f"))))
+  | f => throw s!"bad pct form {f}"
+
 def isNanCell : Cell → Bool
   | .nan => true
   | _ => false
@@ -152,6 +167,18 @@ def transformOp (a : DimArray Cell) (req : Json) : P Json := do
     pure (encExcept encDimArray (Lib.diffAxis Cell.sub Cell.nan a (← axisArg (fldD req "axis" Json.null)) sch
       (← bool (fldD req "keepaxis" (Json.bool false))) (← nat (fldD req "n" (Json.num 1)))))
   | "arg" => do pure (encSum (Lib.argAxis Cell.arg a (← axisArg (fldD req "axis" Json.null))))
+  | "percentile" => do
+    -- lib.stats.percentile(a, pct, axis, newaxis): cells are symbolic percentiles `redp q fibre`
+    pure (encSum (Lib.percentile Cell.nan Cell.redp a (← pctArg (← fld req "pct")) (← axisArg (fldD req "axis" Json.null))
+      (← optOf str (fldD req "newaxis" Json.null))))
+  | "quantile" => do
+    pure (encSum (Lib.quantile Cell.nan Cell.redp a (← listOf ratPair (← fld req "q")) (← kind (fldD req "qkind" (Json.str "f")))
+      (← axisArg (fldD req "axis" Json.null)) (← optOf str (fldD req "newaxis" Json.null))))
+  | "argwhole" =>
+    -- argmin() / argmax() over the whole array: one symbolic label cell per dimension
+    pure (match Lib.argWhole Cell.arg a with
+      | .error e => Json.mkObj [("err", encErr e)]
+      | .ok l => Json.mkObj [("ok", Json.mkObj [("tuple", Json.arr (l.map encCell).toArray)])])
   | "take_axis" => do
     let m ← mode (fldD req "indexing" (Json.str "label"))
     pure (encExcept encDimArray (Lib.takeAxis a (← listOf label (← fld req "indices")) (← dimKey (← fld req "axis")) m
@@ -168,6 +195,10 @@ def transformOp (a : DimArray Cell) (req : Json) : P Json := do
   | "interp" => do
     pure (encExcept encDimArray (Lib.interpAxis (fun a b w => Cell.lin a b w) a (← dimKey (← fld req "axis"))
       (← listOf label (← fld req "labels")) (← kind (fldD req "newkind" (Json.str "f"))) Cell.fill Cell.fill2))
+  | "interp_like" => do
+    -- C18: interp_like(other, left, right); "template" = the axes of `other`
+    pure (encExcept encDimArray (Lib.interpLike (fun a b w => Cell.lin a b w) a (← listOf axis (← fld req "template"))
+      Cell.fill Cell.fill2))
   | f => throw s!"unknown transform {f}"
 
 def dsOp (j : Json) : P DS.Op := do
@@ -471,6 +502,7 @@ def handle (op : String) (req : Json) : P (List (String × Json)) := do
           DSV.concatenateDs Cell.nan (ds :: os) (axisKey.getD (.pos 0))
       | "copy" => DSV.copyDs Cell.nan ds
       | "reindex_like" => DSV.reindexLikeDs Cell.fill ds tmpl
+      | "interp_like" => DSV.interpLikeDs (fun a b w => Cell.lin a b w) ds tmpl Cell.fill Cell.fill2
       | _ => .error .other
     pure [("lib", encExcept encDs r)]
   | _ => throw s!"unknown op {op}"
